@@ -32,7 +32,9 @@ class Probe:
     def _f(self, s):
         if s in self.failing:
             # "a conversion failure" is any exception of the converter, whatever its type
-            raise {"alpha é": ValueError, "b & c": KeyError}.get(s, Probe.ProbeError)("probe: cannot convert " + s)
+            if s not in ("alpha é", "b & c"):
+                raise Probe.ProbeError()           # ... also one that carries no message at all (str(e) == "")
+            raise {"alpha é": ValueError, "b & c": KeyError}[s]("probe: cannot convert " + s)
         return "<" + s + ">"
     unicode_to_latex = _f
     latex_to_text = _f
